@@ -45,6 +45,7 @@ from .utils.function_builder import FunctionBuilder
 # noinspection PyProtectedMember
 from .utils.dataclass_compat import _set_new_attribute
 from .utils.string_conv import to_camel_case
+from ._verif import yp as _yp  # verification hook H2 (no-op by default)
 
 
 class DumpMixin(AbstractDumper, BaseDumpHook):
@@ -202,6 +203,7 @@ def get_dumper(cls=None, create=True) -> Type[DumpMixin]:
         return dataclass_to_dumper(cls)
 
     except KeyError:
+        _yp('dumper.miss')
 
         if hasattr(cls, _DUMP_HOOKS):
             return set_class_dumper(cls, cls)
@@ -255,6 +257,7 @@ def asdict(o: T,
     try:
         dump = CLASS_TO_DUMP_FUNC[cls]
     except KeyError:
+        _yp('dump.miss')
         dump = dump_func_for_dataclass(cls)
 
     return dump(o, dict_factory, exclude, **kwargs)
@@ -266,6 +269,7 @@ def dump_func_for_dataclass(cls: Type[T],
                             ) -> Callable[[T, Any, Any, Any], JSONObject]:
 
     # TODO dynamically generate for multiple nested classes at once
+    _yp('dump.gen')
 
     # Get the dumper for the class, or create a new one as needed.
     cls_dumper = get_dumper(cls)
@@ -299,6 +303,7 @@ def dump_func_for_dataclass(cls: Type[T],
         _ = v1_dataclass_field_to_alias(cls)
     # Set up the initial dump config for the dataclass.
     setup_dump_config_for_cls_if_needed(cls)
+    _yp('dump.cfg_done')
 
     # A cached mapping of each dataclass field to the resolved key name in a
     # JSON or dictionary object; useful so we don't need to do a case
@@ -514,8 +519,10 @@ def dump_func_for_dataclass(cls: Type[T],
     if is_main_class:
         # Check if the class has a `to_dict`, and it's
         # equivalent to `asdict`.
+        _yp('dump.setattr')
         if getattr(cls, 'to_dict', None) is asdict:
             _set_new_attribute(cls, 'to_dict', asdict_func)
+        _yp('dump.store')
         CLASS_TO_DUMP_FUNC[cls] = asdict_func
     else:
         nested_cls_to_dump_func[cls] = asdict_func
@@ -560,10 +567,13 @@ def _asdict_inner(obj, dict_factory, hooks, meta, cls_to_dump_func,
             dump_hook = hooks[NamedTupleMeta]
 
         else:
+            _yp('hook_scan.begin')
             for t in hooks:
+                _yp('hook_scan.iter')
                 if isinstance(obj, t):
                     # cache the hook for the subtype, so that next time this
                     # logic isn't run again.
+                    _yp('hook_scan.store')
                     dump_hook = hooks[cls] = hooks[t]
                     break
             else:
@@ -571,6 +581,7 @@ def _asdict_inner(obj, dict_factory, hooks, meta, cls_to_dump_func,
 
                 # cache the hook for the custom type, so that next time this
                 # logic isn't run again.
+                _yp('hook_scan.store')
                 dump_hook = hooks[cls] = DumpMixin.default_dump_with
 
         return dump_hook(*hook_args)
